@@ -79,12 +79,30 @@ func init() {
 					return "err"
 				}
 				return "ok " + hex.EncodeToString(s[:])
+			case f[0] == "reset":
+				return "ok"
+			case f[0] == "hs" && c03Handshake != nil:
+				return c03Handshake(f)
 			case f[0] == "tunnel" && len(f) == 3 && c03Tunnel != nil:
 				switch f[1] {
 				case "tcp", "udp", "fwd", "file", "shell":
 					return c03Tunnel(f[1], unhexTok(f[2]))
 				}
 				return "bad-op"
+			case f[0] == "dhkey" && len(f) == 4:
+				// what a responder call site does with a received key: ECDH, then derive
+				req, err := strconv.ParseUint(f[3], 10, 64)
+				must(err)
+				remote := c03Key32(f[2])
+				priv := c03Key32(f[1])
+				var pub [crypto.KeySize]byte
+				curve25519.ScalarBaseMult(&pub, &priv)
+				sec, err := crypto.ComputeECDH(priv, remote)
+				if err != nil {
+					return "err"
+				}
+				k := crypto.DeriveSessionKey(sec, req, remote, pub, false).Key()
+				return "key " + hex.EncodeToString(k[:]) + " secret " + hex.EncodeToString(sec[:])
 			case f[0] == "pair" && len(f) == 4:
 				privI, privR := c03Key32(f[1]), c03Key32(f[2])
 				req, err := strconv.ParseUint(f[3], 10, 64)
@@ -135,10 +153,27 @@ func init() {
 				}
 				return r.bytes(32)
 			}
-			// every degenerate remote key against a few private keys
-			for _, lo := range c03LowOrder {
+			// every degenerate remote key against a few private keys — in EVERY encoding X25519 treats as
+			// equal: RFC 7748 ignores bit 255, so each small-order point (incl. the non-canonical p, p+1)
+			// also comes with the top bit set; plus the old "+p, bit 255 set" encodings, which are ordinary
+			// points after masking
+			for i, lo := range c03LowOrder {
 				fmt.Fprintf(w, "dh %s %s\n", h(r.bytes(32)), lo)
 				fmt.Fprintf(w, "dh %s %s\n", h(key()), lo)
+				if i < 7 {
+					hi := unhexTok(lo)
+					hi[31] |= 0x80
+					fmt.Fprintf(w, "dh %s %s\n", h(r.bytes(32)), h(hi))
+					fmt.Fprintf(w, "dh %s %s\n", h(key()), h(hi))
+					fmt.Fprintf(w, "dhkey %s %s %d\n", h(r.bytes(32)), h(hi), reqs())
+				}
+			}
+			if c03HandshakeGen != nil {
+				n := 1
+				if tier == "thorough" {
+					n = 10
+				}
+				c03HandshakeGen(w, r, n)
 			}
 			for _, kind := range []string{"tcp", "udp", "fwd", "file", "shell"} {
 				reps := 1
